@@ -41,6 +41,12 @@ CHECKS = {
   text="BFS to depth 3 (quick) / 4 (thorough), from the empty state and from a populated state, over AddFact / RemFact / AddRule / RemRule / SetParents(every parent set of size <= 2: self-loops, 2- and 3-cycles, chains, fans, diamonds) / ProcessEvent on three locations, driven through core.SimpleLocationProvider and through sys.System, on both states. The rule has an inherited pattern condition and an action that calls Env.AddFact. After every step each location's inherited and local searches, rule candidates, query and parents are compared with a model (tree-shaped ancestry: own + transitive parents; looping ancestry: an error, and the call returns), and the private state + storage of every location other than the one operated on must be unchanged.",
   note="Diamond ancestry is outside the statement's forests (skipped, counted). Actions run with serialActions (concurrent actions are C04/C12). A worker that dies is attributed to its journaled history.",
   design="2/C09"),
+ "C12": dict(
+  engine="SCHED",
+  technique="stateless model checking of the implementation: controlled cooperative scheduler + deviation-bounded DFS over thread schedules, brute-force linearizability against sequential runs, vector-clock happens-before race detection on instrumented maps",
+  text="Two client threads issue one operation each on shared ids of one location for ALL unordered pairs of 9 operations (AddFact x2 values, RemFact, GetFact, SearchFacts, AddRule, RemRule, EnableRule, ProcessEvent), from an empty and a populated location, on both states; every schedule with at most 1 deviation (quick) / 2 (thorough; plus 3 threads and 2+1 operations over a 5-operation alphabet) is executed on the real code under a scheduler that owns every lock, goroutine spawn, channel operation and timer. Per schedule: the call/return history must be explained by a real-time-respecting sequential order (run on a fresh location), final private state and storage must equal that order's, no deadlock (Go's RWMutex writer preference is modelled), no escaped panic, no happens-before race on any instrumented map.",
+  note="Sequential consistency is assumed for racy code (races themselves are reported). Visible: rulio's sync, go statements, channels, timers, map accesses; not visible: slice elements, pointer fields, otto internals. 2-3 clients of the property's 2..8. A JavaScript timeout landing early is excluded here (C14).",
+  design="2/C12"),
  "C19": dict(
   engine="GEN+SEQ",
   technique="exhaustive enumeration of the product protection state x caller context x operation x set-up history on the real Location (directly and via sys.System), privileged before/after snapshot and unprotected-twin oracle",
@@ -110,6 +116,7 @@ def main():
             {"name": "INSTR", "path": "instr/", "serves_properties": sorted(CHECKS), "kind_free_text": "source-to-source rewriter producing a build overlay: virtual clock, owned map-iteration order, (level 2) cooperative scheduler hooks for sync/go/channels"},
             {"name": "GEN", "path": "harness/lib/gen.go", "serves_properties": [k for k, v in sorted(CHECKS.items()) if "GEN" in v["engine"]], "kind_free_text": "bounded-exhaustive term enumeration (all JSON terms up to a node budget over a fixed leaf alphabet, size-ordered)"},
             {"name": "FAULT", "path": "harness/lib/env.go (RecStore)", "serves_properties": [k for k, v in sorted(CHECKS.items()) if "FAULT" in v["engine"]], "kind_free_text": "recording Storage wrapper: exhaustive crash-at-call-k and fail-call-k enumeration over the storage calls of every explored transition"},
+            {"name": "SCHED", "path": "rt/sched, rt/vsync, rt/vchan, harness/lib/explore.go", "serves_properties": [k for k, v in sorted(CHECKS.items()) if "SCHED" in v["engine"]], "kind_free_text": "hand-rolled cooperative scheduler (CHESS style) over level-3 instrumented rulio: deviation-bounded DFS over schedules, virtual time as a participant, shared-object reduction, vector-clock race detection, replayable choice lists"},
             {"name": "SEQ", "path": "harness/lib/seq.go", "serves_properties": [k for k, v in sorted(CHECKS.items()) if "SEQ" in v["engine"]], "kind_free_text": "explicit-state BFS over operation sequences of the real code, replay-from-fresh successors, canonical-state dedup including private implementation state, reference-model oracle"},
         ],
         "checks": checks,
